@@ -38,18 +38,26 @@ func main() {
 		return
 	}
 	if len(os.Args) >= 5 && os.Args[1] == "-mkcase" {
-		// harness_C21 -mkcase <t|p> <entry> <Go-quoted content>: prints the case line of a single-file build, the
-		// build result and the strict verdict (used to write known_findings.json entries)
-		src, err := strconv.Unquote(os.Args[4])
-		if err != nil {
-			fmt.Println(err)
-			os.Exit(2)
+		// harness_C21 -mkcase <t|p|m> <entry> <Go-quoted content>               a single-file build
+		// harness_C21 -mkcase <t|p|m> <entry> <name> <Go-quoted content> ...    several files
+		// prints the case line, the build result and the strict verdict (used to write known_findings.json entries)
+		b := lexh.BuildCase{Kind: os.Args[2][0], Entry: os.Args[3], Files: map[string][]byte{}}
+		rest := os.Args[4:]
+		if len(rest) == 1 {
+			rest = []string{os.Args[3], rest[0]}
 		}
-		b := lexh.BuildCase{Kind: os.Args[2][0], Entry: os.Args[3], Files: map[string][]byte{os.Args[3]: []byte(src)}}
+		for i := 0; i+1 < len(rest); i += 2 {
+			src, err := strconv.Unquote(rest[i+1])
+			if err != nil {
+				fmt.Println(err)
+				os.Exit(2)
+			}
+			b.Files[rest[i]] = []byte(src)
+		}
 		br := lexh.BuildInChild(b)
 		cl, want := verdict(b, br, true)
 		cl2, _ := verdict(b, br, false)
-		fmt.Printf("build %s\n%s:%d:%d start=%d end=%d syntax=%v %q\nstrict: %q want %s; with hypotheses: %q\n", b.Line(), br.Path, br.Line, br.Col, br.Start, br.End, br.Syntax, br.Msg, cl, want, cl2)
+		fmt.Printf("build %s\n%s %s:%d:%d start=%d end=%d syntax=%v %q site=%s\nstrict: %q want %s; with hypotheses: %q\n", b.Line(), br.Status, br.Path, br.Line, br.Col, br.Start, br.End, br.Syntax, br.Msg, br.Site, cl, want, cl2)
 		return
 	}
 	hx.Main("C21", run)
@@ -222,7 +230,7 @@ func class(msg string) string {
 
 func run(c *hx.Ctx) error {
 	res := c.Res
-	res.Rule = "build inputs: byte-level and token-level mutants (lexh.Mutate: delimiter/keyword/tag fragments, token delete/duplicate/swap/replace, byte flips, truncations, splices, line-ending swaps, context wraps) of the template and program corpus of /repo and of multi-file template trees (extends/import/render), in all six formats; a case is non-trivial when the build returns a *BuildError (the oracle then checks path, offsets, line and column); distinct by files. Lexer inputs for the position correspondence: the same single-file mutants."
+	res.Rule = "build inputs: byte-level and token-level mutants (lexh.Mutate: delimiter/keyword/tag fragments, token delete/duplicate/swap/replace, byte flips, truncations, splices, line-ending swaps, context wraps) of the template and program corpus of /repo and of multi-file template trees (extends/import/render), in all six formats; a case is non-trivial when the build returns a *BuildError (the oracle then checks path, offsets, line and column); distinct by files. Newline stream (newlines.go): slot (the lexical state the hole is in: ~130 states of templates in all formats and of programs) x escape before the terminator (none, a lone backslash, and in string states every escape sequence) x terminator (LF, CR LF, CR; VT, FF, NEL, U+2028, U+2029 as decoys) x 1 or 2 repetitions x probe (undefined identifier, stray parenthesis, unknown escape, if without condition, none) x place (inside the state, after it, next line) x role (built file, rendered file); quick: the core sub-matrix plus one in twelve of the rest, thorough: all. Lexer inputs for the position correspondence and the token oracle: the same single-file mutants and every source of the newline stream."
 	corpus := lexh.LoadCorpus(c.N(4000, 40000), c.N(4000, 40000))
 	if len(corpus.Templates) < 50 {
 		return fmt.Errorf("corpus too small (%d templates): is VERIF_REPO right?", len(corpus.Templates))
@@ -344,6 +352,22 @@ func run(c *hx.Ctx) error {
 		single(s, s.Data, s.Format)
 		res.Hist("nonascii-stream")
 	}
+	// a line terminator of every kind in every lexical state, followed by a position probe (newlines.go)
+	origin := map[string]string{} // build line / lexer line -> the point of the matrix it came from
+	seenLex := map[string]bool{}
+	for _, n := range newlineMatrix(r, !c.Quick()) {
+		builds = append(builds, n.build)
+		origin[n.build.Line()] = "newline stream: " + n.label()
+		if k := n.lex.Key(); !seenLex[k] {
+			seenLex[k] = true
+			lexCases = append(lexCases, n.lex)
+			origin[lexh.LexLine(n.lex)] = "newline stream: " + n.label()
+		}
+		res.Hist("newline-stream")
+		res.Hist("newline-stream/term-" + n.term)
+		res.Hist("newline-stream/probe-" + n.probe + "-" + n.place)
+		res.Hist("newline-stream/role-" + n.role)
+	}
 	for i := 0; i < c.N(2500, 30000); i++ {
 		t := corpus.Trees[r.Intn(len(corpus.Trees))]
 		b := lexh.BuildCase{Kind: 't', Entry: t.Entry, Files: map[string][]byte{}}
@@ -419,6 +443,9 @@ func run(c *hx.Ctx) error {
 			br = buildOne(min)
 		}
 		_, want := verdict(min, br, false)
+		if o := origin[b.Line()]; o != "" {
+			res.Notes = append(res.Notes, fmt.Sprintf("%s: first failing input (before shrinking) from %s", clause, o))
+		}
 		res.AddBreak(proto.Break{Kind: "property", Name: clause, Case: "C21 build " + min.Line(), Human: humanBuild(min),
 			Impl: fmt.Sprintf("%s:%d:%d (start %d, end %d): %s", br.Path, br.Line, br.Col, br.Start, br.End, br.Msg), Model: want,
 			Finding: knownFor("build " + min.Line())})
@@ -460,6 +487,9 @@ func run(c *hx.Ctx) error {
 						return w != "" && strings.Fields(w)[0] == sig
 					}, 6000)
 					what, want = tokenVerdict(min, lexRunner.Ask(lexh.LexLine(min)))
+					if o := origin[lexh.LexLine(cs)]; o != "" {
+						res.Notes = append(res.Notes, fmt.Sprintf("token-%s: first failing input (before shrinking) from %s", sig, o))
+					}
 					res.AddBreak(proto.Break{Kind: "property", Name: "token-" + sig, Case: "C21 lex " + lexh.LexLine(min),
 						Human: fmt.Sprintf("%c format=%d %q", min.Mode, min.Format, min.Src), Impl: what, Model: want,
 						Finding: knownFor("lex " + lexh.LexLine(min))})
